@@ -184,6 +184,37 @@ def write_evidence(ctx, mod, proof):
         json.dump(common.sanitize(ev), f, indent=1, allow_nan=False)
 
 
+def import_closure(prop_files):
+    """module names of PersimVerif reachable through `import` lines from the given files"""
+    seen, todo = set(), [module_of(f) for f in prop_files]
+    while todo:
+        m = todo.pop()
+        if m in seen:
+            continue
+        seen.add(m)
+        path = os.path.join(LEAN, m.replace(".", "/") + ".lean")
+        try:
+            src = open(path).read()
+        except OSError:
+            continue
+        for mm in re.findall(r"^import\s+(PersimVerif[\w.]*)", src, flags=re.M):
+            todo.append(mm)
+    return seen
+
+
+def regenerate_generated(modules, skip_ir=False):
+    """rewrite (only when the text changes) the generated files among `modules` from PERSIM_ROOT's source"""
+    from harness.translator import consts, py2lean
+    if "PersimVerif.Generated.KernelConsts" in modules:
+        consts.generate(common.REPO, common.LEAN_DIR)
+    by_file = {py2lean.FILES[k][1]: k for k in py2lean.FILES}
+    keys = [by_file[m.split(".")[-1] + ".lean"] for m in modules if m.split(".")[-1] + ".lean" in by_file]
+    if keys:
+        py2lean.generate(common.REPO, common.LEAN_DIR, only=keys)
+    if not skip_ir and any(m.startswith("PersimVerif.Generated.ApiIR") for m in modules):
+        raise HarnessError("a property other than C19 imports the generated API IR: add its regeneration here")
+
+
 def run_check(pid, tier, seed, replay):
     mod = importlib.import_module("harness.props.%s" % pid.lower())
     ctx = common.Ctx(pid, tier, seed)
@@ -207,6 +238,13 @@ def run_check(pid, tier, seed, replay):
         if generated:
             mod.pre_build(ctx)          # translator: regenerate Lean from PERSIM_ROOT's source
             prop_files = list(getattr(mod, "PROP_FILES", prop_files))
+        # every generated file the property files import (directly or through a composed property) must come from THIS
+        # run's PERSIM_ROOT, not from whichever check ran last: regenerate the cheap ones (constants, Src*) always
+        closure = import_closure(prop_files)
+        gen_in_closure = sorted(m for m in closure if m.startswith("PersimVerif.Generated."))
+        regenerate_generated(gen_in_closure, skip_ir=(pid == "C19"))
+        generated = generated or bool(gen_in_closure)
+        ctx.extra["generated_modules_in_import_closure"] = gen_in_closure
         rc, out = sh(["lake", "build", "persim_model"], cwd=LEAN, timeout=3000)
         if rc != 0:
             raise HarnessError("model driver does not build:\n" + out[-4000:])
